@@ -61,7 +61,7 @@ def run(ctx):
                 "defined consumer-first + cyclic rings + chains of 1500/5000 dependants; every assignment's trace is judged; "
                 "non-trivial = an assignment triggering >= 2 tasks; distinct by (history prefix)")
     ctx.scale_if_changed()
-    proof_ok = vlib.standard_proof_part(ctx, "props/C02.v", extra_targets=["run/RunManager.vo", "proofs/TasksSrc.vo", "proofs/TasksSrcData.vo", "proofs/TasksSrcRefresh.vo"], translators=["tasks"])
+    proof_ok = vlib.standard_proof_part(ctx, "props/C02.v", extra_targets=["run/RunManager.vo", "proofs/TasksSrc.vo", "proofs/TasksSrcData.vo", "proofs/TasksSrcRefresh.vo", "proofs/TasksSrcSorting.vo"], translators=["tasks"])
     # start sets larger than any small-set threshold (64, 128): many direct dependants with triangles among them
     cases = [fan_case(3, 3), fan_case(6, 2), cyc_case(3), cyc_case(6), mc.wide_case(ctx.rng, 66), mc.wide_case(ctx.rng, 131)]
     cases += [mc.gen_history(ctx.rng, ["mixed", "dag", "assign", "windows"][i % 4]) for i in range(ctx.pick(240, 4000))]
